@@ -2,6 +2,7 @@ mod c01;
 mod c04;
 mod c04w;
 mod c07;
+mod c08;
 mod c12;
 mod c14;
 mod c15;
@@ -128,6 +129,11 @@ fn run_check(id: &str, tier: Tier) -> i32 {
             r.parts.push(c07::part_parse(tier));
             finish(r)
         }
+        "C08" => {
+            let mut r = Report::new("C08", tier, "exploration");
+            r.parts.push(c08::part_parsers(tier));
+            finish(r)
+        }
         "C10" => {
             let mut r = Report::new("C10", tier, "model_checking");
             r.parts.push(c01::part_c10(tier));
@@ -191,6 +197,7 @@ fn replay(path: &str) -> i32 {
         "e2e" => e2x::replay(rp),
         "dap" => dapx::replay(rp),
         "c15" => c15::replay(rp),
+        "c08-parse" => c08::replay(rp),
         "c04" => c04::replay(rp),
         e => {
             eprintln!("no replay handler for engine {e:?}");
